@@ -401,7 +401,8 @@ bool StateMachine::Impl::run(Event event)
     }
 
     //! 如果有子状态机，则给子状态机处理
-    if (curr_state_->sub_sm != nullptr) {
+    //! 子状态机终止并被停止之后，事件由本状态机自己处理
+    if (curr_state_->sub_sm != nullptr && curr_state_->sub_sm->isRunning()) {
         bool ret = curr_state_->sub_sm->run(event);
         if (!curr_state_->sub_sm->isTerminated())
             return ret;
